@@ -17,9 +17,10 @@ fn exec(t: &[String]) -> Option<String> {
     let (ty, line) = dec(t)?;
     let mut w = W::new();
     put_pres(&mut w, ty, &line);
-    // the same line as the only line of a Reader (the property also observes the reader's items); a line with
-    // CR or LF inside is several lines to a reader and stays with C04
-    if !line.is_empty() && !line.contains('\n') && !line.contains('\r') {
+    // the same line between two well-formed lines of a Reader (the property also observes the reader's items: the
+    // line gets its one item, the blank line included, and its neighbours are unaffected); a line with CR or LF
+    // inside is several lines to a reader and stays with C04
+    if !line.contains('\n') && !line.contains('\r') {
         let (a, b) = reader_status(ty, &line);
         w.s("rd").s(&a).s(&b);
     }
@@ -114,7 +115,7 @@ pub fn prop() -> PropDef {
     PropDef {
         id: "C12",
         rule: "corpus, then for each of the 9 record types (GenomicRange, BED<3..6>, NarrowPeak, BroadPeak, BedGraph<i64>, BedGraph<f64>): valid lines of random records, every prefix of them (0..N columns), every single-column corruption drawn from 22 malformed tokens (empty, non-numeric, negative, fractional, > u64::MAX, padded, '+1', '007', bad strand, non-ASCII digits ...), trailing extra columns, empty string, lone separators, Unicode, random token soup, lines of 10-220 bytes with a 2-4-byte UTF-8 character at every byte offset; thorough adds ALL strings over {TAB,1,-,.,+,x} up to length 5 for every type. Non-trivial: the line must be rejected, or has extra columns. Distinct = distinct (type, line).",
-        observable: "str::parse::<T>(): Ok(fields) | Err(class of ParseError) | panic; and for the same line fed to Reader::records / into_records: one Ok item | one Err item | other count | panic",
+        observable: "str::parse::<T>(): Ok(fields) | Err(class of ParseError) | panic; and for the same line fed to Reader::records / into_records: for the line between two well-formed lines, three items with the middle one Ok | Err, or a neighbour lost, another count, a panic",
         gen, exec, shrink, child: None,
     }
 }
